@@ -115,13 +115,7 @@ Proof.
     + constructor; auto.
 Qed.
 
-(* ---------- the fragment ---------- *)
-(* identifiers with the same id carry the same name in every definition (what `uniquify` establishes;
-   the checkers wt_fs / unique_binders look at ids only), and the entry point takes integers *)
-Definition names_ok (p : fsprog) : bool := forallb (fun d => nc_stmt (cvars (fsdctx d)) (fsdbody d)) (fspdefs p).
-Definition main_int (p : fsprog) : bool :=
-  match fspdefs p with d :: _ => forallb int_binding (fsdctx d) | [] => true end.
-Definition frag2_prog (p : fsprog) : bool := names_ok p && main_int p.
+(* the fragment predicates names_ok, main_int, frag2_prog: Sem/FsFrag2.v *)
 
 Section Prog.
 Variable p : fsprog.
